@@ -19,8 +19,8 @@ def profile(st):
 CHECK = MixedCheck(
     prop='C04', profile=profile,
     monitors=lambda: [Registry(), AccountMonitor(('C04',))],
-    tiers={'quick': 300, 'thorough': 30_000},
-    ops_profile={'type': 'spot', 'spot_plain_sells': True}, ops_tiers={'quick': 4000, 'thorough': 600_000},
+    tiers={'quick': 300, 'thorough': 10_000},
+    ops_profile={'type': 'spot', 'spot_plain_sells': True}, ops_tiers={'quick': 4000, 'thorough': 300_000},
     ops_nontrivial=lambda r: r['counters'].get('c04_compares', 0) >= 5,
     nontrivial=lambda r: r['counters'].get('c04_compares', 0) > 50,
     rule=('operation runs: real store/exchange/positions/orders/broker of a spot session, the seeded scheduler draws 5-60 operations '
